@@ -84,20 +84,23 @@ func (p *Profile) activated(jdk string, os ActivationOS) (bool, error) {
 
 	act := p.Activation
 	res := false
-	if act.JDK != "" {
+	if strings.HasPrefix(string(act.JDK), "!") {
+		// A negated value activates the profile when the JDK version does
+		// not start with it.
+		if strings.HasPrefix(jdk, string(act.JDK)[1:]) {
+			return false, nil
+		}
+		res = true
+	} else if act.JDK != "" {
 		c, err := semver.Maven.ParseConstraint(string(act.JDK))
 		if err != nil {
 			return false, err
 		}
 		if c.IsSimple() {
-			// A profile should be active when the JDK version is of
-			// the same major and minor number.
+			// A profile should be active when the JDK version starts
+			// with the given value.
 			// https://maven.apache.org/guides/introduction/introduction-to-profiles.html#jdk
-			cmp, diff, err := semver.Maven.Difference(string(act.JDK), jdk)
-			if err != nil {
-				return false, err
-			}
-			if cmp > 0 || (cmp < 0 && (diff == semver.DiffMajor || diff == semver.DiffMinor)) {
+			if !strings.HasPrefix(jdk, string(act.JDK)) {
 				return false, nil
 			}
 		} else {
